@@ -14,6 +14,7 @@ loop heads are iterated to a fixpoint, and return/raise/break/continue are expli
 from __future__ import annotations
 
 import ast
+import re
 from dataclasses import dataclass, field
 from typing import Callable, Optional
 
@@ -30,7 +31,7 @@ class State:
     def add(self, facts) -> Optional["State"]:
         """Add facts; None if they contradict what already holds (branch infeasible)."""
         m = set(self.must)
-        for pol, txt in facts:
+        for pol, txt in _closure(facts):
             if (not pol, txt) in m:
                 return None
             m.add((pol, txt))
@@ -61,6 +62,20 @@ class State:
                 continue
             keep.append(f)
         return State(frozenset(keep), self.may)
+
+
+_IDENT = re.compile(r"^[A-Za-z_][A-Za-z_0-9.]*$")
+
+
+def _closure(facts):
+    """truthy(x) => x is not None;  x is None => falsy(x)   (x a plain name / attribute chain)"""
+    out = list(facts)
+    for pol, txt in list(out):
+        if pol and _IDENT.match(txt):
+            out.append((False, f"{txt} is None"))
+        elif pol and txt.endswith(" is None") and _IDENT.match(txt[:-8]):
+            out.append((False, txt[:-8]))
+    return out
 
 
 def join(states: list[Optional[State]]) -> Optional[State]:
@@ -152,16 +167,45 @@ def cond_facts(expr: ast.expr, truth: bool) -> set[Fact]:
         for k, v in neg.items():
             if isinstance(op, k):
                 pos = ast.Compare(left=expr.left, ops=[v()], comparators=expr.comparators)
-                return {(not truth, unparse(pos))}
+                return cond_facts(pos, not truth)
         out = {(truth, unparse(expr))}
         # walrus on the left: `(x := f()) is not None`
         if isinstance(expr.left, ast.NamedExpr):
             inner = ast.Compare(left=ast.Name(id=expr.left.target.id, ctx=ast.Load()), ops=expr.ops, comparators=expr.comparators)
             out |= cond_facts(inner, truth)
+            if isinstance(expr.left.value, ast.Name):  # `(x := y) is None` also speaks about y
+                inner2 = ast.Compare(left=expr.left.value, ops=expr.ops, comparators=expr.comparators)
+                out |= cond_facts(inner2, truth)
         return out
     if isinstance(expr, ast.Constant):
         return set()
     return {(truth, unparse(expr))}
+
+
+def value_facts(target: ast.AST, value: ast.expr, st: "State") -> set[Fact]:
+    """Facts about a local right after `target = value` (None-ness and truthiness of literals; copied from a plain name)."""
+    if not isinstance(target, ast.Name):
+        return set()
+    x = target.id
+    if isinstance(value, ast.Constant):
+        if value.value is None:
+            return {(True, f"{x} is None"), (False, x)}
+        return {(False, f"{x} is None"), (bool(value.value), x)}
+    if isinstance(value, ast.Tuple):
+        return {(False, f"{x} is None"), (bool(value.elts), x)}
+    if isinstance(value, (ast.List, ast.Set, ast.Dict)):
+        return {(False, f"{x} is None")}  # mutable: emptiness changes without an assignment (append/update)
+    if isinstance(value, (ast.ListComp, ast.SetComp, ast.DictComp, ast.GeneratorExp, ast.JoinedStr, ast.Lambda)):
+        return {(False, f"{x} is None")}
+    if isinstance(value, ast.Name) and value.id != x:
+        out = set()
+        for pol, txt in st.must:
+            if txt == f"{value.id} is None":
+                out.add((pol, f"{x} is None"))
+            elif txt == value.id:
+                out.add((pol, x))
+        return out
+    return set()
 
 
 def const_truth(expr: ast.expr) -> Optional[bool]:
@@ -337,10 +381,18 @@ class FlowAnalysis:
             for t in s.targets:
                 if not isinstance(t, ast.Name):
                     cur = self._expr(t, cur)
-            return self._assign_kill(s.targets, cur) if cur else None
+            if cur is None:
+                return None
+            vf = value_facts(s.targets[0], s.value, cur) if len(s.targets) == 1 else set()
+            cur = self._assign_kill(s.targets, cur)
+            return cur.add(vf) if vf else cur
         if isinstance(s, ast.AnnAssign):
             cur = self._expr(s.value, st) if s.value is not None else st
-            return self._assign_kill([s.target], cur) if cur else None
+            if cur is None:
+                return None
+            vf = value_facts(s.target, s.value, cur) if s.value is not None else set()
+            cur = self._assign_kill([s.target], cur)
+            return cur.add(vf) if vf else cur
         if isinstance(s, ast.AugAssign):
             cur = self._expr(s.value, st)
             if cur is not None and not isinstance(s.target, ast.Name):
